@@ -129,7 +129,7 @@ def run_config(args):
         return common.canon_key([s.f, s.u])
 
     def nontrivial(s):
-        return len(s.u.source_to_iso_name) > 0 or len(s.u.data) > 0 if hasattr(s.u, "data") else True
+        return len(getattr(s.u, "source_to_iso_name", ())) > 0 or len(getattr(s.u, "data", ())) > 0 if hasattr(s.u, "data") else True
 
     res = xstate.bfs(Pair(mode, entries, extra), enabled, step, key, max_states=max_states, nontrivial=nontrivial, stop_after=6)
     long_n = args[4] if len(args) > 4 else 0
